@@ -24,6 +24,7 @@ mod c13;
 mod c14;
 mod c15;
 mod c19;
+mod c20;
 mod c18;
 
 use std::io::{BufRead, Write};
@@ -56,6 +57,7 @@ fn exec_line(line: &str) -> String {
             "C14" => c14::exec(&op, &a),
             "C15" => c15::exec(&op, &a),
             "C19" => c19::exec(&op, &a),
+            "C20" => c20::exec(&op, &a),
             "C18" => c18::exec(&op, &a),
             _ => format!("harness-unknown-property {}", prop),
         }
@@ -115,10 +117,12 @@ fn main() {
                 "C14" => c14::generate(&mut rng, tier, shard, nshards, &mut emit),
                 "C15" => c15::generate(&mut rng, tier, shard, nshards, &mut emit),
                 "C19" => c19::generate(&mut rng, tier, shard, nshards, &mut emit),
+                "C20" => c20::generate(&mut rng, tier, shard, nshards, &mut emit),
                 "C18" => c18::generate(&mut rng, tier, shard, nshards, &mut emit),
                 _ => { eprintln!("unknown property {}", prop); std::process::exit(2); }
             }
         }
+        Some("config") => { writeln!(out, "{}", c20::cfg_string()).unwrap(); }
         Some("exec") => {
             let stdin = std::io::stdin();
             for line in stdin.lock().lines() {
